@@ -1936,7 +1936,7 @@ func batchStream(cfg *Config) *hx.Stats {
 			if T > 300 && T <= 600 && si == 0 {
 				cap = 9000 // one two-level tail at a mid-size threshold
 			}
-			if cfg.Scale >= 20 && si == 0 && p%4 == 0 {
+			if cfg.Scale >= 20 && si == 0 && p%20 == 0 {
 				cap = 40000 // thorough tier: tens of thousands of elements
 			}
 			if sz > maxInl && cap > 2000 {
